@@ -26,7 +26,14 @@ META = {
         'TDP and single-fracture histories never exceed Trock and never rise inside a cycle when Tinj <= Trock (refuted otherwise, '
         'known finding), single fracture under the stated hypotheses on erf/sqrt. Tied by correspondence on every run: direct calls of '
         'Reservoir.Calculate and WellBores.Calculate and whole runs through main() are compared inside Coq with the models, and the '
-        'property clauses are evaluated by Coq-defined checkers on the series the real code produced.'),
+        'property clauses are evaluated by Coq-defined checkers on the series the real code produced (checkers proved sound: floor, '
+        'periodic, monotone-within-cycles, upper bound, model-2 range). Round 2: the rational remainder of Reservoir.Calculate is modelled '
+        'and tied on every direct call and snapshot (average gradient x capped depth = Trock - Tsurf; fracture geometry by shape option; '
+        'V = (N-1) x A x separation for volume options 1-3, option 4 verbatim; heat content linear/additive in volume and >= 0); a second '
+        'WellBores.Calculate call on the same object (district heating) gives the series of a fresh call but may report a stale count '
+        '(C05_second_call_stale_count_refuted, known finding); the cylindrical, SBT and user-profile reservoirs are tied for Trock / depth / '
+        'average gradient (cylindrical and SBT apply no Tmax cap, SBT averages gradients without thicknesses: stated as _refuted theorems, '
+        'outside the property quantifier).'),
     'level_note': ('Trusted: Coq kernel + vm_compute; the Python harness; float rounding is outside the theorems (comparison tolerance '
                    '1e-9, decisions closer than that to their threshold are counted as boundary_ambiguous). math.erf/math.sqrt, '
                    'mpmath.invertlaplace (models 1,2), CoolProp and RameyCalc are inputs of the model (their values are read from the run).'),
@@ -45,6 +52,8 @@ META = {
                      '(tools/props/C05.py, tools/lib: unverified Python)'],
     'modelled': ['Reservoir.read_parameters magnitude heuristics (gradient > 1 -> /1000, < 1e-6 -> 1e-6, thickness < 100 -> x1000, bottom '
                  'thickness 100000, depth x1000, default depth included since fix a8610e4)', 'Reservoir.Calculate layer walk and maxdepth cap',
+                 'Reservoir.Calculate fracture geometry, volume options, average gradient, heat content (math.pi, math.sqrt as data)',
+                 'CylindricalReservoir.Calculate and the first lines of SBTReservoir.Calculate/Calculate_Uloop (Trock, depth, average gradient)',
                  'TDPReservoir/SFReservoir.Calculate, affine part of MPF/LHSReservoir.Calculate', 'np.linspace, np.argmax, np.tile, slicing',
                  'math.erf, math.sqrt (Section variables with monotonicity/range hypotheses, sampled on every run)',
                  'mpmath.invertlaplace, CoolProp, RameyCalc (values read from the run)'],
@@ -54,7 +63,8 @@ META = {
     'fingerprint': [('src/geophires_x/Reservoir.py', 'Reservoir.Calculate'), ('src/geophires_x/Reservoir.py', 'Reservoir.read_parameters'),
                     ('src/geophires_x/TDPReservoir.py', 'TDPReservoir.Calculate'), ('src/geophires_x/SFReservoir.py', 'SFReservoir.Calculate'),
                     ('src/geophires_x/MPFReservoir.py', 'MPFReservoir.Calculate'), ('src/geophires_x/LHSReservoir.py', 'LHSReservoir.Calculate'),
-                    ('src/geophires_x/WellBores.py', 'WellBores.Calculate')],
+                    ('src/geophires_x/WellBores.py', 'WellBores.Calculate'), ('src/geophires_x/CylindricalReservoir.py', 'CylindricalReservoir.Calculate'),
+                    ('src/geophires_x/SBTReservoir.py', 'SBTReservoir.Calculate_Uloop'), ('src/geophires_x/UPPReservoir.py', 'UPPReservoir.Calculate')],
 }
 
 GENERATORS = (gen_c05_ranges,)
@@ -173,7 +183,7 @@ def spec_walk(n, Ts, Tmax, gs, ths, depth):
 
 def part_walk(ctx):
     m = _live_model(ctx, 2, 2)
-    cases = walk_cases(ctx, ctx.n(1500, 15000))
+    cases = walk_cases(ctx, ctx.n(1200, 15000))
     flat, part, keys, bad_spec, kept, tolerated = [], [], [], [], [], 0
     for c in cases:
         n, Ts, Tmax, depth, gs, ths, geo = c
@@ -388,23 +398,51 @@ QUICK_EXAMPLES = {'example_multiple_gradients.txt', 'example2.txt', 'example3.tx
 def all_inputs(ctx):
     from lib import configs
     rnd, inputs = ctx.rng, corpus_inputs()
-    for k in range(ctx.n(150, 600)):
+    for k in range(ctx.n(100, 600)):
         m = (1 + (k // 15) % 2) if k % 15 == 0 else rnd.choice([4, 4, 4, 3, 3])
         inputs.append((f'gen{k}', gen_input(rnd, m, QUICK_STEPS if ctx.quick else DEEP_STEPS)))
-    ex = [(n, t) for n, t in configs.example_texts(ctx) if not ctx.quick or n in QUICK_EXAMPLES]
+    for k in range(ctx.n(4, 40)):
+        inputs.append((f'upp{k}', gen_upp_input(ctx, rnd, k)))
+        inputs.append((f'cyl{k}', gen_cyl_input(rnd)))
+    ex = [(n, t) for n, t in configs.example_texts(ctx) if not ctx.quick or n in QUICK_EXAMPLES]   # SBT/SUTRA: see part_extra
     return inputs + [('example/' + n, t) for n, t in ex]
+
+
+def gen_upp_input(ctx, rnd, k):
+    """reservoir model 5: the temperature history comes from a file (n+1 lines); bottom-hole temperature from the base-class walk"""
+    text = gen_input(rnd, 4).replace('Reservoir Model, 4\n', 'Reservoir Model, 5\n')
+    life, tspy = (int(re.search(rf'{key}, (\d+)', text).group(1)) for key in ('Plant Lifetime', 'Time steps per year'))
+    f = ctx.scratch / f'upp_profile_{k}.txt'
+    f.write_text(''.join(f'{j / tspy:.4f}, {180 - 0.3 * j:.3f}\n' for j in range(life * tspy + 1)))
+    return text + f'Reservoir Output File Name, {f}\n'
+
+
+def gen_cyl_input(rnd):
+    """reservoir model 0 (CylindricalReservoir): Trock from the first gradient and the input depth, no Tmax cap"""
+    dec = lambda lo, hi, d=2: rnd.randint(int(round(lo * 10 ** d)), int(round(hi * 10 ** d))) / 10 ** d
+    p = [('Reservoir Model', 0), ('Cylindrical Reservoir Input Depth', dec(0.5, 9, 1)), ('Gradient 1', rnd.choice([dec(20, 80, 1), 0.5, 1])),
+         ('Surface Temperature', dec(0, 30, 1)), ('Maximum Temperature', dec(100, 600, 0)), ('Injection Temperature', dec(15, 45, 1)),
+         ('Plant Lifetime', rnd.choice([2, 5])), ('Time steps per year', rnd.choice([1, 2])), ('End-Use Option', 2), ('Power Plant Type', 9),
+         ('Print Output to Console', 0)]
+    if rnd.random() < 0.7:
+        p.insert(2, ('Cylindrical Reservoir Output Depth', dec(0.5, 9, 1)))
+    return runner.params_to_text(p)
 
 
 def part_runs(ctx, inputs):
     results = runner.run_many(ctx, [t for _, t in inputs])
-    bht, spec, dd, orc, ran, sigs, amb, rep_bad, tvs, rp = [], [], [], [], 0, [], 0, [], {}, []
+    bht, spec, dd, orc, ran, sigs, amb, rep_bad, tvs, rp, cyl = [], [], [], [], 0, [], 0, [], {}, [], []
     for (name, text), r in zip(inputs, results):
         if not r['snap'] or not snapshot.S(r['snap']).has('reserv', 'Trock'):
             ctx.count('runs', rejected={'no snapshot': 1})
             continue
         S = snapshot.S(r['snap'])
         m = _resmodel(S)
-        if m not in (1, 2, 3, 4) or type(S.v('reserv', 'Trock')) is not float:
+        if m == 0 and S.has('reserv', 'InputDepth'):      # cylindrical reservoir: its own three-line computation
+            cyl.append(([F(S.v('reserv', 'Tsurf')), F(S.v('reserv', 'gradient')[0]), F(S.v('reserv', 'InputDepth')), F(S.v('reserv', 'OutputDepth'))],
+                        ('V', [F(S.v('reserv', 'Trock')), F(S.v('reserv', 'depth')), F(S.v('reserv', 'averagegradient'))]), {'name': name, 'text': text}))
+            continue
+        if m not in (1, 2, 3, 4, 5) or type(S.v('reserv', 'Trock')) is not float:
             ctx.count('runs', rejected={'other reservoir model': 1})
             continue
         ran += 1
@@ -424,6 +462,9 @@ def part_runs(ctx, inputs):
         rf = respost_flat(S, Trock, depth)
         if rf is not None:
             rp.append((rf[0], ('V', rf[1]), ref, rf[2]))
+        if m == 5:                                        # user-provided profile: only the base-class clauses apply
+            sigs.append((m, int(S.v('reserv', 'numseg')), bool(flat) and depth < flat[4] * 1000 * (1 - TOL), False, False))
+            continue
         # --- histories
         T, P = [F(x) for x in S.v('reserv', 'Tresoutput')], [F(x) for x in S.v('wellbores', 'ProducedTemperature')]
         n, red = len(T), int(S.v('wellbores', 'redrill'))
@@ -491,6 +532,10 @@ def part_runs(ctx, inputs):
                     'temperature / initial heat content of the run differ from Model.ResCalc.res_post', inp=rp[i][2],
                     observed=[float(x) for x in rp[i][1][1]], expected='run_respost (replay)')
     ctx.count('rescalc-run', evaluations=len(rp), nontrivial_keys=[x[3] for x in rp])
+    for i in _kernel(ctx, 'cylindrical-run', ['Model.ResCalc'], 'run_cylindrical', TOL, [(a, b) for a, b, _ in cyl], 200)[:3]:
+        ctx.violate('corr', 'cylindrical-run', f'{cyl[i][2]["name"]}: Trock / depth / average gradient of the cylindrical reservoir differ from '
+                    'Model.ResCalc.run_cylindrical', inp=cyl[i][2], observed=[float(x) for x in cyl[i][1][1]], expected='run_cylindrical (replay)')
+    ctx.count('cylindrical-run', evaluations=len(cyl))
     # the property itself: Trock = min(Tsurf + integral of gradients down to the depth the input denotes, Tmax)
     for i in _kernel(ctx, 'bht-run-spec', ['Model.Gradient'], 'run_bht_spec', TOL, [(a, b) for a, b, _, _ in spec], 200)[:6]:
         key = f'bht:nseg={int(spec[i][0][0])}' if spec[i][3] else K_DEPTH
@@ -536,6 +581,79 @@ def part_runs(ctx, inputs):
                     observed={'Tres': [float(x) for x in a[7:7 + info['n']]][:40], 'P': [float(x) for x in a[7 + info['n']:]][:40]})
 
 
+class _Stop(Exception):
+    pass
+
+
+def _model_from_text(ctx, tag, text):
+    logging.disable(logging.CRITICAL)
+    from geophires_x.Model import Model
+    p = ctx.scratch / f'direct_{tag}.txt'
+    p.write_text(text)
+    m = Model(enable_geophires_logging_config=False, input_file=str(p))
+    m.read_parameters()
+    return m
+
+
+def part_extra(ctx):
+    """reservoir classes that override the walk: direct calls of CylindricalReservoir.Calculate and of the first lines of
+    SBTReservoir.Calculate / Calculate_Uloop (aborted at generate_wireframe_model: the simulation itself takes 2-18 s and is not C05)"""
+    rnd = ctx.rng
+    dec = lambda lo, hi, d: F(rnd.randint(int(lo * 10 ** d), int(hi * 10 ** d)), 10 ** d)
+    import geophires_x.Model  # noqa: F401  (circular import: Model first)
+    from geophires_x.CylindricalReservoir import CylindricalReservoir
+    import geophires_x.SBTReservoir as sbtmod
+    m = _model_from_text(ctx, 'cyl', gen_cyl_input(rnd))
+    cases = []
+    for _ in range(ctx.n(300, 3000)):
+        Ts, g0, din, dout = dec(-5, 40, 1), dec(0.01, 0.12, 4), dec(0.1, 15, 2), dec(0.1, 15, 2)
+        r = m.reserv
+        r.Tsurf.value, r.gradient.value[0], r.InputDepth.value, r.OutputDepth.value, r.Trock.value = float(Ts), float(g0), float(din), float(dout), None
+        try:
+            CylindricalReservoir.Calculate.__wrapped__(r, m)
+        except Exception:  # noqa: BLE001 - water properties above their range (there is no Tmax cap here)
+            if r.Trock.value is None:
+                raise
+        cases.append(([Ts, g0, din, dout], ('V', [F(r.Trock.value), F(r.depth.value), F(r.averagegradient.value)])))
+    bad = _kernel(ctx, 'cylindrical-direct', ['Model.ResCalc'], 'run_cylindrical', TOL, cases, 400)
+    ctx.count('cylindrical-direct', evaluations=len(cases), nontrivial_keys=[('above Tmax', c[1][1][0] > F(m.reserv.Tmax.value)) for c in cases])
+    for i in bad[:2]:
+        d = {'Tsurf': str(cases[i][0][0]), 'gradient': str(cases[i][0][1]), 'input_depth_km': str(cases[i][0][2]), 'output_depth_km': str(cases[i][0][3])}
+        ctx.violate('corr', 'cylindrical-direct', f'CylindricalReservoir.Calculate and Model.ResCalc.run_cylindrical disagree on {d}',
+                    inp={'part': 'cylindrical-direct', 'case': d}, observed=[float(x) for x in cases[i][1][1]])
+    text = (fw.REPO / 'tests' / 'examples' / 'example_SBT_Lo_T.txt').read_text() + '\nPrint Output to Console, 0\n'
+    m = _model_from_text(ctx, 'sbt', text)
+    stash = sbtmod.generate_wireframe_model
+
+    def stop(*a, **k):
+        raise _Stop()
+    sbtmod.generate_wireframe_model = stop
+    cases = []
+    try:
+        for _ in range(ctx.n(300, 3000)):
+            n, Ts, ep, jd = rnd.randint(1, 4), dec(-5, 40, 1), dec(1000, 15000, 0), dec(1000, 15000, 0)
+            gs = [dec(0.01, 0.12, 4) for _ in range(4)]
+            r, w = m.reserv, m.wellbores
+            r.numseg.value, r.Tsurf.value, r.gradient.value, r.Trock.value = n, float(Ts), [float(g) for g in gs], None
+            w.lateral_endpoint_depth.value, w.junction_depth.value = float(ep), float(jd)
+            try:
+                getattr(sbtmod.SBTReservoir.Calculate, "__wrapped__", sbtmod.SBTReservoir.Calculate)(r, m)
+            except _Stop:
+                pass
+            if r.Trock.value is None:
+                raise RuntimeError('SBTReservoir.Calculate did not reach the bottom-hole temperature (configuration not U-loop?)')
+            cases.append(([F(n), Ts, ep, jd / 1000, ep / 1000] + gs, ('V', [F(r.Trock.value), F(r.depth.value), F(r.averagegradient.value)])))
+    finally:
+        sbtmod.generate_wireframe_model = stash
+    bad = _kernel(ctx, 'sbt-direct', ['Model.ResCalc'], 'run_sbt', TOL, cases, 400)
+    ctx.count('sbt-direct', evaluations=len(cases), nontrivial_keys=[int(c[0][0]) for c in cases])
+    for i in bad[:2]:
+        d = {'n': int(cases[i][0][0]), 'Tsurf': str(cases[i][0][1]), 'endpoint_m': str(cases[i][0][2]), 'junction_km': str(cases[i][0][3]),
+             'gradients': [str(x) for x in cases[i][0][5:]]}
+        ctx.violate('corr', f'sbt-direct:nseg={d["n"]}', f'SBTReservoir.Calculate_Uloop and Model.ResCalc.run_sbt disagree on {d}',
+                    inp={'part': 'sbt-direct', 'case': d}, observed=[float(x) for x in cases[i][1][1]])
+
+
 def correspondence(ctx, proofs_ok=True):
     import time
     t0 = time.time()
@@ -543,6 +661,7 @@ def correspondence(ctx, proofs_ok=True):
         part_walk(ctx)
         t1 = time.time()
         part_history(ctx)
+        part_extra(ctx)
     t2 = time.time()
     part_runs(ctx, all_inputs(ctx))
     ctx.distribution.setdefault('wall_s', {}).update({'walk-direct': round(t1 - t0), 'redrill-direct': round(t2 - t1), 'runs': round(time.time() - t2)})
@@ -628,6 +747,10 @@ def replay(ctx, data):
             ctx.violate('property', 'floor', 'production temperature below the drawdown limit')
         if bad:
             ctx.violate('corr', 'redrill-direct', 'model and implementation disagree')
+    elif inp.get('part') in ('cylindrical-direct', 'sbt-direct'):
+        print('re-running the direct calls of CylindricalReservoir.Calculate / SBTReservoir.Calculate against Model.ResCalc; recorded case:', inp.get('case'))
+        with contextlib.redirect_stdout(io.StringIO()):
+            part_extra(ctx)
     else:
         print('nothing to replay in', list(inp))
         return 1
